@@ -8,7 +8,7 @@ SPEC = {
         run("e5-fork", "c05_span_identity", "asan", 48, 960, sq=2, st=4, params={"mode": "fork"}),
     ],
     "floors": {
-        "quick": {"decisive_spancontext": 500, "decisive_context": 500, "decisive_active": 500,
+        "quick": {"foreign_contexts_sparse_ids": 3000, "decisive_spancontext": 500, "decisive_context": 500, "decisive_active": 500,
                   "decisive_explicit_over_active": 500, "sampler_drop_under_sampled_parent": 500,
                   "sampler_sample_under_unsampled_parent": 500, "sampler_trace_state_given": 200,
                   "nonrecording_spans": 200, "exported_checked": 1000, "parent_with_extra_flag_bits": 500,
